@@ -186,6 +186,9 @@ func validateFlags() []error {
 	// We limit qps to < 1000 to ensure we don't overload Spanner accidentally.
 	if *qps <= 0 || *qps > 1000 {
 		errs = append(errs, fmt.Errorf("qps must be 1 <= qps <= 1000, was %v", *qps))
+	} else if time.Duration(float64(time.Second) / *qps) <= 0 {
+		// The interval between probes (1s/qps) must be representable as a positive duration.
+		errs = append(errs, fmt.Errorf("qps is too small to compute a probe interval, was %v", *qps))
 	}
 
 	if *numRows <= 0 {
